@@ -157,7 +157,7 @@ CHECKS = {
             "All int32 byte-pattern values x all slots (RAM inspected directly), overlapping "
             "double writes, all 20 motor states (installed directly and reached through the "
             "library, compared) x all (r1,r2) in -1..7 with query read-back and depth-2/3 "
-            "chains, and 17x17 nickname histories (incl. names made of the reply header's characters).",
+            "chains, and 20x20 nickname histories (incl. names made of the reply header's characters).",
             "Trusts EBB3Board's EM/QE/SL/QL/ST/QT semantics (EBB command reference).",
             "DESIGN.md §3 C16"),
     "C07": ("deviation-bounded exhaustive exploration of fake-port answers (E1) over request "
